@@ -1,6 +1,7 @@
 """Rules over the codec layout terms shared by C01 (round trip) and C02 (wire format)."""
 from __future__ import annotations
 
+import ast
 from typing import Dict, List, Optional, Tuple
 
 from .layout import Affine, CodecLayout, LayoutExtractor, LoopDesc
@@ -663,6 +664,24 @@ def peek_problems(repo) -> Tuple[List[str], int, str]:
                                        "struct.unpack('<B',%s)[0]" % tok, 'six.indexbytes(%s,0)' % tok, 'ord(%s)' % tok,
                                        'six.byte2int(%s)' % tok, "int.from_bytes(%s,'big')" % tok, "int.from_bytes(%s,'little')" % tok,
                                        'bytearray(%s)[0]' % tok)
+        if not ok and tok is not None:
+            # ``S.unpack(tok)[0]`` / ``struct.unpack(FMT, tok)[0]`` with a struct constant of one unsigned byte
+            try:
+                re_ = ast.parse(ret or 'None', mode='eval').body
+            except SyntaxError:
+                re_ = None
+            if isinstance(re_, ast.Subscript) and isinstance(re_.slice, ast.Constant) and re_.slice.value == 0 \
+                    and isinstance(re_.value, ast.Call) and isinstance(re_.value.func, ast.Attribute) and re_.value.func.attr == 'unpack' \
+                    and re_.value.args and ast.unparse(re_.value.args[-1]) == tok:
+                from .srcmodel import StructVal
+                fmt = None
+                if ast.unparse(re_.value.func.value) == 'struct' and len(re_.value.args) == 2:
+                    fmt = repo.try_fold(re_.value.args[0], fi.module, fi.cls)
+                elif len(re_.value.args) == 1:
+                    sv = repo.try_fold(re_.value.func.value, fi.module, fi.cls)
+                    fmt = sv.fmt if isinstance(sv, StructVal) else None
+                if isinstance(fmt, str) and fmt.replace(' ', '').lstrip('<>!=@') == 'B':
+                    ok = True
         if not ok:
             probs.append('the value returned for a byte that was read is %s, not the integer value of that byte' % ret)
     if n == 0:
